@@ -1085,4 +1085,112 @@ def rule_typekind(ctx) -> RuleResult:
     return res
 
 
-RULES = [rule_own, rule_xkind, rule_effect, rule_guard, rule_fresh, rule_typekind]
+def rule_xlookup(ctx) -> RuleResult:
+    res = RuleResult(
+        "C06.XLOOKUP",
+        "C06",
+        "the look-up of an identifier across kinds (Workspace.find_entity) answers 'nothing' only when no registry of entities holds a LIVE "
+        "referent under it: on every path that may return None, each of the group / data / object / property-group registries was found "
+        "without the key or with a dead referent (a key whose referent died stays until the sweep and must not end the search)",
+        floor=1,
+    )
+    p = ctx.p
+    fn = p.func("Workspace.find_entity")
+    me = fn.self_name
+    required = set(REGISTRIES) - {"_types"}
+    if len(fn.params) < 2:
+        raise AnalysisError("Workspace.find_entity: identifier parameter not found")
+
+    # per-kind look-ups of the workspace: method name -> the one registry whose live referent it returns
+    per_kind = {}
+    for name in LOOKUPS:
+        m = p.cls("Workspace").methods.get(name)
+        if m is None or m is fn or len(m.params) != 2:
+            continue
+        got = set()
+        for path in _paths(ctx, m):
+            if path.end == "return" and path.value is not None:
+                for v, _ in _alternatives(path.value):
+                    if not (isinstance(v, ast.Constant) and v.value is None):
+                        r = _referent_of(v, m.self_name, {})
+                        got.add(r)
+        if len(got) == 1 and None not in got:
+            per_kind[name] = got.pop()
+
+    def no_live(c, pol):
+        """registry for which the decided condition shows there is no live referent under the key"""
+        x = _is_none_test(c)
+        if x is not None and pol or x is None and not pol and not isinstance(c, ast.Compare):
+            x = x if x is not None else c
+            r = _referent_of(x, me, per_kind)
+            if r:
+                return r
+            # the entry itself: `registry.get(key) is None` -> no key
+            if isinstance(x, ast.Call) and isinstance(x.func, ast.Attribute) and x.func.attr == "get" and x is not c:
+                return _registry_attr(x.func.value, me)
+        if isinstance(c, ast.Compare) and len(c.ops) == 1 and isinstance(c.ops[0], ast.In) and not pol:
+            k = c.comparators[0]
+            if isinstance(k, ast.Call) and isinstance(k.func, ast.Attribute) and k.func.attr == "keys" and not k.args:
+                k = k.func.value
+            return _registry_attr(k, me)
+        return None
+
+    ok, n = True, 0
+    for path in _paths(ctx, fn):
+        if path.end == "raise":
+            continue
+        ret = next((e for e in reversed(path.trace) if e.kind == "return"), None)
+        facts = path.conds_before(ret) if ret is not None else []
+        value = path.value if path.value is not None else ast.Constant(value=None)
+        for v, sel in _alternatives(value):
+            known = {(_t(c), pol) for c, pol in facts}
+            if any((_t(c), not pol) in known for c, pol in sel):
+                continue  # this alternative is not taken on this path
+            allf = list(facts) + list(sel)
+            covered = {r for r in (no_live(c, pol) for c, pol in allf) if r}
+            operands = v.values if isinstance(v, ast.BoolOp) and isinstance(v.op, ast.Or) else [v]
+            may_be_nothing = False
+            for o in operands:
+                if isinstance(o, ast.Constant) and o.value is None:
+                    may_be_nothing = True
+                    continue
+                r = _referent_of(o, me, per_kind)
+                if r is None:
+                    continue  # something else than a referent of a registry: not this rule's business
+                covered.add(r)
+                alive = any((x is not None and not pol and _t(x) == _t(o)) or (x is None and pol and _t(c) == _t(o)) for c, pol in allf for x in [_is_none_test(c)])
+                may_be_nothing |= not alive
+            if isinstance(v, ast.BoolOp) and isinstance(v.op, ast.Or):
+                may_be_nothing = True
+            if may_be_nothing:
+                n += 1
+                ok &= required <= covered
+    res.inst(f"Workspace.find_entity: every way of answering nothing has looked for a live referent in {sorted(required)}", nontrivial=True, ok=ok and n > 0)
+    if not (ok and n):
+        res.find("Workspace", "find_entity", "the search ends without a live referent before every registry was consulted", fn.where,
+                 "a key left behind by a dead entity in one registry (dead keys stay until the sweep) hides the live entity that owns the identifier in "
+                 "another: get_entity / find_entity answer None for an identifier in use, copies take it for free and are refused")
+    return res
+
+
+def _referent_of(x, me, per_kind):
+    """Registry whose LIVE REFERENT under a key the (closed) expression denotes, or None: registry.get(k)() / registry[k]() /
+    `None if e is None else e()` / get_clean_ref(registry, k) / one of the per-kind look-ups of the workspace."""
+    if isinstance(x, ast.IfExp):
+        rs = {_referent_of(v, me, per_kind) for v in (x.body, x.orelse) if not (isinstance(v, ast.Constant) and v.value is None)}
+        return rs.pop() if len(rs) == 1 else None
+    if not isinstance(x, ast.Call):
+        return None
+    if not x.args and not x.keywords and isinstance(x.func, (ast.Call, ast.Subscript)):
+        e = x.func
+        base = e.func.value if isinstance(e, ast.Call) and isinstance(e.func, ast.Attribute) and e.func.attr == "get" else e.value if isinstance(e, ast.Subscript) else None
+        return _registry_attr(base, me) if base is not None else None
+    name = call_name(x)
+    if name == "get_clean_ref" and x.args:
+        return _registry_attr(x.args[0], me)
+    if name in per_kind and isinstance(x.func, ast.Attribute) and _t(x.func.value) == me:
+        return per_kind[name]
+    return None
+
+
+RULES = [rule_own, rule_xkind, rule_effect, rule_guard, rule_fresh, rule_typekind, rule_xlookup]
